@@ -137,10 +137,12 @@ class Run:
         w, m = self.w, self.m
         out = []
         cands = m.matches(url)
+        self.last_cd = None
         try:
             cd = w.sm.resolve_cap(url)
         except Exception as e:
             return [("resolve:raises:%s" % type(e).__name__, "resolve_cap(%s) raised %r" % (url, e))]
+        self.last_cd = cd
         if not cands:
             if cd:
                 out.append(("resolve:unknown-url-resolved", "%s resolved to %r although nothing was granted for it" % (url, cd.cap_name)))
@@ -166,6 +168,28 @@ class Run:
                             url, cd.cap_name, getattr(cd.type, "name", cd.type), cd.base_url,
                             cd.region() if cd.region else None, cd.session() if cd.session else None, e["name"], e["type"].name, key[0], key[1])))
         return out
+
+    def _model_consume_resolved(self, cd):
+        for key, lst in self.m.entries.items():
+            for x in lst:
+                if x["type"] == CapType.TEMPORARY and x["name"] == cd.cap_name and x["url"] == cd.base_url:
+                    self.m.entries[key] = [y for y in lst if y is not x]
+                    return True
+        return False
+
+    def _model_consume(self, key, e):
+        """a one-shot cap is used up by the lookup that resolves to it.  With prefix-related URLs the lookup may legitimately
+        resolve to another grant the URL also extends (the statement does not rank them): then *that* one was used, not e."""
+        cd = self.last_cd
+        if cd is None:
+            return False
+        if cd.cap_name == e["name"] and cd.base_url == e["url"]:
+            self.m.entries[key] = [x for x in self.m.entries[key] if x is not e]
+            return True
+        self.count("temporary_shadowed_by_prefix")
+        if cd.type == CapType.TEMPORARY:
+            self._model_consume_resolved(cd)
+        return False
 
     def step(self, op):
         k = op[0]
@@ -261,7 +285,7 @@ class Run:
             url = e["url"] + suffix
             out.extend(self.check_lookup(url))
             self.count("temporary_resolved")
-            m.entries[key] = [x for x in m.entries[key] if x is not e]
+            self._model_consume(key, e)
         elif k == "proxy":
             _, s, r, name, twice = op
             key = (s, r)
@@ -293,10 +317,13 @@ class Run:
             out.extend(self.check_lookup(url))
             self.count("temporary_resolved")
             # consumed: model drops it
-            m.entries[key] = [x for x in m.entries[key] if x is not e]
-            cd = w.sm.resolve_cap(url)
-            if cd and cd.cap_name == e["name"] and cd.base_url == e["url"]:
-                out.append(("temporary:resolves-twice", "temporary cap %s resolved a second time" % e["name"]))
+            if self._model_consume(key, e):
+                cd = w.sm.resolve_cap(url)
+                if cd and cd.cap_name == e["name"] and cd.base_url == e["url"]:
+                    out.append(("temporary:resolves-twice", "temporary cap %s resolved a second time" % e["name"]))
+                elif cd and cd.type == CapType.TEMPORARY:
+                    # the second lookup fell through to another (prefix-related) one-shot cap and used that one up
+                    self._model_consume_resolved(cd)
         else:
             raise ValueError(op)
         out.extend(self.check_all())
